@@ -139,6 +139,37 @@ RULES = {
         pattern='output.iter().skip(1).step_by(2).fold(FELT_0, |acc, e| pedersen_hash(&acc, e))',
         replace='crate::swiftness_air::layout::hoisted_fold_pedersen_odd(output)',
         why='Skip / StepBy / fold have no vstd model', assumes='left fold of pedersen_hash over output[1], output[3], ... starting from 0'),
+    # ---- cli/src/transform.rs (parametrised by the receiver: rule name `H_vmap:<receiver>`)
+    'H_vmap': dict(
+        kind='H',
+        pattern='@R.into_iter().map($F).collect()',
+        replace='crate::hoist::vec_map_g(@R, $F)',
+        why='vec::IntoIter / Map / collect have no vstd model',
+        assumes='Vec::into_iter().map(f).collect::<Vec<_>>() applies f to every element in order (stated through the closure\'s own requires/ensures; the closure body itself IS verified)'),
+    'H_dyn_values': dict(
+        kind='H',
+        pattern='self.dynamic_params.values().map(|&f| f as usize).collect()',
+        replace='crate::cli_prelude::map_values_usize(&self.dynamic_params)',
+        why='BTreeMap::values / Map / collect have no vstd model; closure parameter pattern',
+        assumes='yields the map\'s values in key order, each cast with `as usize`'),
+    'R5_assert_eq_len': dict(
+        kind='R5',
+        pattern='assert_eq!($A, $B, $MSG);',
+        replace='assert!($A == $B);',
+        why='assert_eq! expands to formatting code outside Verus\' subset',
+        assumes='no assumption: both panic exactly when the operands differ (the message is dropped)'),
+    'T_dynmap': dict(
+        kind='T',
+        pattern='BTreeMap<String, u32>',
+        replace='crate::cli_prelude::DynParamMap',
+        why='BTreeMap and String have no vstd model',
+        assumes='the map is used only through is_empty() and values() (checked by the type: the stand-in has no other method)'),
+    'H_dyn_from': dict(
+        kind='H',
+        pattern='DynamicParams::from(params)',
+        replace='dynamic_params_from(params)',
+        why='the 340-field From impl is checked separately (unit core, region From<Vec<usize>>@DynamicParams) / assumed',
+        assumes='panics unless exactly 340 values; assigns them to the fields in declaration order'),
     # ---- stark/commit.rs
     'R1_for_underscore': dict(
         kind='R1', pattern='for _ in 0..n {', replace='for i__ in 0..n {',
@@ -198,9 +229,14 @@ def _match(pat, txt, i):
 
 def apply(name, toks, log):
     from assemble import AssembleError
+    param = None
+    if ':' in name:
+        name, param = name.split(':', 1)
     if name not in RULES:
         raise AssembleError('unknown rewrite rule ' + name)
     r = RULES[name]
+    if param is not None:
+        r = dict(r, pattern=r['pattern'].replace('@R', param), replace=r['replace'].replace('@R', param))
     pat = []
     for t in tokenize(r['pattern']):
         if pat and pat[-1] == '$' and t.kind == 'id':
